@@ -158,6 +158,12 @@ def run_case(ctx, case):
             return
     info = face_class(m)
     eligible = np.array([(c[3] and 3 <= c[2] <= 8 and c[1] < 90.0) for c in info])
+    # faces with a corner inside the library's pole-snapping band (not AT the pole) are reported with that corner at the pole
+    # (sanctioned by C04): the grid then describes another polygon there, nothing is demanded of its area
+    _zb = (np.abs(m.xyz[:, 2]) > 1 - 1.01e-8) & (np.abs(m.xyz[:, 2]) < 1.0)
+    if _zb.any():
+        eligible = eligible & ~np.array([bool(_zb[f_].any()) for f_ in m.faces])
+        ctx.observe("meshes_with_corner_in_pole_snap_band")
     diam = np.array([c[0] for c in info])
     bnd = np.array([bound_for(x) if bound_for(x) is not None else np.inf for x in diam])
     lon, lat = m.lonlat()
@@ -240,10 +246,20 @@ def run_case(ctx, case):
             ctx.check("no_exception", False, {"stage": "cache", "exc": core.exc_sig(e)}, {"exc": repr(e)})
 
     # invariance twins (default rule, and the highest triangular order when all_rules)
-    def twin_check(name, a_tw, order_map, tol_factor, hi=False):
+    def in_band(mesh_):
+        """faces with a corner inside the library's pole-snapping band (|z| > 1 - 1e-8 but not at the pole): the grid reports that
+        corner AT the pole (sanctioned by C04), i.e. it describes a polygon displaced by up to 1.4e-4 rad there"""
+        zb = (np.abs(mesh_.xyz[:, 2]) > 1 - 1.01e-8) & (np.abs(mesh_.xyz[:, 2]) < 1.0)
+        return np.array([bool(zb[f_].any()) for f_ in mesh_.faces])
+
+    base_band = in_band(m)
+
+    def twin_check(name, a_tw, order_map, tol_factor, hi=False, tw_mesh=None):
         # order_map: twin face k is base face order_map[k]
         base = (by_rule[("triangular", 12)] if hi else a0)[order_map]
-        e = eligible[order_map]
+        e = eligible[order_map] & ~base_band[order_map]
+        if tw_mesh is not None:
+            e = e & ~in_band(tw_mesh)
         if hi:
             lim = np.where(diam[order_map] <= 30, 1e-9, np.inf)
         else:
@@ -276,9 +292,9 @@ def run_case(ctx, case):
                 ctx.clause_evals["invariance"] = ctx.clause_evals.get("invariance", 0) + m.n_face - 1
                 ctx.check("invariance", bool(np.all(relc <= 1e-13)), {"twin": name, "order": "default"}, {"max_rel": float(relc.max()), "mesh": d})
             else:
-                twin_check(name, at, omap, 2.0)
+                twin_check(name, at, omap, 2.0, tw_mesh=tw)
                 if case["all_rules"] and ("triangular", 12) in by_rule:
-                    twin_check(name, areas(gt, "triangular", 12), omap, 2.0, hi=True)
+                    twin_check(name, areas(gt, "triangular", 12), omap, 2.0, hi=True, tw_mesh=tw)
         except Exception as e:
             ctx.check("no_exception", False, {"stage": "twin", "twin": name, "exc": core.exc_sig(e)}, {"exc": repr(e), "mesh": d})
     # Cartesian input
